@@ -7,7 +7,7 @@
 (* outside its predicate.  They are predicates over *analyzer-accepted*    *)
 (* descriptions after group inlining.                                      *)
 (***************************************************************************)
-EXTENDS PdlCodec
+EXTENDS PdlInherit
 
 PacketLike(d) == {i \in 1..Len(d.decls) : d.decls[i].kind \in {"packet", "struct"}}
 
@@ -57,6 +57,8 @@ CommonSupported(d) ==
 (* modifier" in decoder.rs), element-size only on struct elements                             *)
 RustSupported(d) ==
   /\ CommonSupported(d)
+  (* the rust backend refuses trees in which two children share constraints and size *)
+  /\ \A i \in PacketLike(d) : Children(d, d.decls[i].id) # {} => Unambiguous(d, d.decls[i].id)
   /\ AllFieldsSat(d, LAMBDA decl, j, f : f.kind = "array" => f.mod < 0)
 
 (* Python: no element-size fields (python-generated-code-guide, run_python_generator_tests) *)
